@@ -613,7 +613,12 @@ def tie_C09(ctx):
             sseed = rand_bytes(rng, GENS[sg]["seed"])
             fr.append([f"new 1 {sg} seed {sseed.hex()}", "clone 3 1", f"new 0 {g} rng 1", f"fill 3 {nb}", "u64 1", "u64 3",
                        f"{native(g)} 0"])
-    h, _ = ctx.absolute("from_rng / try_from_rng: bytes consumed, result, error propagation vs model", fr)
+    # values produced afterwards belong to C01-C05; here: ok/err, bytes consumed, == with from_seed(bytes); the model is
+    # the value reference only for ISAAC (1024/2048-byte state, two passes: no from_seed equivalent exists)
+    h, _ = ctx.absolute("from_rng / try_from_rng: bytes consumed, result, error propagation vs model", fr,
+                        mask=lambda c_: c_.startswith("u32 ") or c_.startswith("u64 ") or c_.startswith("fill "))
+    ctx.absolute("IsaacRng/Isaac64Rng from_rng / try_from_rng: full-state seeding, two passes vs model",
+                 [c for c in fr if "Isaac" in c[1] and c[0].startswith("src")])
     for c, o in zip(fr, h):
         g = c[1].split()[2] if c[1].startswith("new") else c[2].split()[2]
         if c[0].startswith("src") and len(c[0].split()) == 3:
@@ -696,8 +701,9 @@ def tie_C10(ctx):
         k = rng.randrange(1, 15)
         c = [f"new 0 Hc128Rng seed {seed.hex()}"] + ["u32 0"] * k + ["clone 1 0", "u32 1", "eq 0 1", "u32 0", "eq 0 1"]
         cases.append(c); meta.append(("Hc128Rng", 9, len(c) - 3))
-    # C10 is about clone / == and equality of the two futures; the values themselves belong to C01-C05
-    h, _ = ctx.absolute_from_state("clone / == pairs with identical continuations vs model", cases, mask=only_state)
+    # C10 is about clone / == and equality of the two futures of the REAL generators; values belong to C01-C05
+    h = ctx.real("clone / == pairs with identical continuations (real vs real)", cases)
+    ctx.traces_validated += len(cases)
     for (g, kind, eq_at), c, o in zip(meta, cases, h):
         if kind == 9:
             if o[eq_at] != "false":
@@ -707,6 +713,11 @@ def tie_C10(ctx):
         e0 = o[eq_at]
         cont_pairs = [(o[i], o[i + 1]) for i in range(eq_at + 1, len(c) - 1, 2)]
         same = all(x == y for x, y in cont_pairs)
+        if kind == 2 and g in REAL_EQ and e0 != "true":
+            ctx.fail("eq-same", f"{g}: two generators built from the same seed with the same history do not compare equal", c,
+                     expected="true", actual=e0)
+        if kind == 2 and not same:
+            ctx.fail("determinism", f"{g}: same seed and same history, different values", c)
         if kind in (0, 1):
             if g in REAL_EQ and e0 != "true":
                 ctx.fail("clone-eq", f"{g}: a clone does not compare equal to its original", c, expected="true", actual=e0)
@@ -747,8 +758,9 @@ def tie_C11(ctx):
             c += ["ser 0", "ser 1"]
             cases.append(c); meta.append((g, at))
             ctx.dist[f"{g}:snapshot"] += 1
+    # the image is compared real-vs-real (restored = original); vs the model only the outcomes of rt / eq
     h, _ = ctx.absolute_from_state("bincode image at a random point of a random history, restored twin, continuations vs model", cases,
-                                   mask=only_state)
+                                   mask=lambda c_: only_state(c_) or c_.startswith("ser "))
     for (g, at), c, o in zip(meta, cases, h):
         if o[at + 1] != "ok":
             ctx.fail("serde", f"{g}: deserializing its own image failed", c, expected="ok", actual=o[at + 1]); continue
@@ -1189,8 +1201,9 @@ def tie_C16(ctx):
         cases.append(head + body)
         meta.append((shape, r))
         ctx.dist[f"shape{shape}"] += 1
-    h, _ = ctx.absolute("JitterRng halves, fresh collections, clones: twins on identical timer scripts with call counts vs model", cases,
-                        mask=only_state)
+    # real-vs-real (twin on an identical timer); the Jitter model itself is tied to the code by C12's absolute tie
+    h = ctx.real("JitterRng halves, fresh collections, clones: twins on identical timer scripts with call counts", cases)
+    ctx.traces_validated += len(cases)
     for (shape, r), c, o in zip(meta, cases, h):
         b = o[6:]
         fresh = 1 + 3 * (1 + r)
